@@ -687,7 +687,8 @@ def pipeline_part(ctx):
             if len(gt.levels) > 1:
                 modes.append(('drop', lv))
         modes.append(('flatten', None))
-        modes.append(('absent', 'no_such_level'))
+        modes.append(('absent', mapcheck.absent_level_name(rng, gt.levels)))
+        modes.append(('absent-flatten', mapcheck.absent_level_name(rng, gt.levels)))
         rng.shuffle(modes)
         paired_modes(ctx, k, sc, var, modes[:ctx.n(3, 6)])
         if k < 2:
@@ -740,10 +741,23 @@ def paired_modes(ctx, k, sc, var, modes, sparse=None):
         ctx.dist('levels', len(gt.levels))
         dd = dict(desc)
         dd.update({'mode': mode, 'level': lv})
+        # 'all bootstrap settings': in 40 % of the pairs the factor is given per level, as an explicit
+        # bootstrap_factor_lookup that lists the levels of the taxonomy the election runs on (and the root)
+        def with_lookup(v, levels_used):
+            v = dict(v)
+            if use_lookup:
+                v['bootstrap_factor_lookup'] = [['None', per_level['None']]] + [[x, per_level[x]] for x in levels_used[:-1]]
+                v['bootstrap_factor'] = None
+            return v
+        use_lookup = rng.random() < 0.4
+        per_level = {x: rng.choice([0.5, 0.75, 1.0]) for x in list(gt.levels) + ['None']}
+        ctx.dist('bootstrap_setting', 'per-level lookup' if use_lookup else 'scalar factor')
+        dd['bootstrap_factor_per_level'] = per_level if use_lookup else None
+        var_all = with_lookup(var, gt.levels)
         if mode == 'drop':
             li = gt.levels.index(lv)
             m = ctx.model([(1004, [gt.model, li])])[0]
-            va = dict(var); va['drop_level'] = lv
+            va = with_lookup(var, [x for x in gt.levels if x != lv]); va['drop_level'] = lv
             ra = paired.run_once(ctx, sc, f'a{k}_{li}', **va)
             if m[0] != 0:
                 if ra['ok']:
@@ -752,21 +766,29 @@ def paired_modes(ctx, k, sc, var, modes, sparse=None):
                 continue
             rlevels = [x for x in gt.levels if x != lv]
             rdata = model_to_data(rlevels, m[1], gt)
-            rb = paired.run_once(ctx, sc, f'b{k}_{li}', tree_data=rdata, **var)
+            rb = paired.run_once(ctx, sc, f'b{k}_{li}', tree_data=rdata, **with_lookup(var, rlevels))
             shared = rlevels
             mcfg = ([li], False)
         elif mode == 'flatten':
-            va = dict(var); va['flatten'] = True
+            va = with_lookup(var, gt.levels[-1:]); va['flatten'] = True
             ra = paired.run_once(ctx, sc, f'a{k}_f', **va)
             rdata = model_to_data([gt.levels[-1]], [gt.model[-1]], gt)
             union = sorted(set(g for v in sc.markers.values() for g in v), key=lambda g: pipeline.gname(g))
-            rb = paired.run_once(ctx, sc, f'b{k}_f', tree_data=rdata, markers={'None': union}, **var)
+            rb = paired.run_once(ctx, sc, f'b{k}_f', tree_data=rdata, markers={'None': union}, **with_lookup(var, gt.levels[-1:]))
             shared = [gt.levels[-1]]
             mcfg = ([], True)
+        elif mode == 'absent-flatten':
+            # an absent drop_level changes nothing under flatten either
+            va = with_lookup(var, gt.levels[-1:]); va['flatten'] = True; va['drop_level'] = lv
+            vb = with_lookup(var, gt.levels[-1:]); vb['flatten'] = True
+            ra = paired.run_once(ctx, sc, f'a{k}_xf', **va)
+            rb = paired.run_once(ctx, sc, f'b{k}_xf', **vb)
+            shared = [gt.levels[-1]]
+            mcfg = ([len(gt.levels)], True)
         else:
-            va = dict(var); va['drop_level'] = lv
+            va = dict(var_all); va['drop_level'] = lv
             ra = paired.run_once(ctx, sc, f'a{k}_x', **va)
-            rb = paired.run_once(ctx, sc, f'b{k}_x', **var)
+            rb = paired.run_once(ctx, sc, f'b{k}_x', **var_all)
             shared = gt.levels
             mcfg = ([len(gt.levels)], False)          # an index that is not a level
         if not ra['ok'] or not rb['ok']:
@@ -783,7 +805,7 @@ def paired_modes(ctx, k, sc, var, modes, sparse=None):
             ctx.count(('c17-sparse', k, lv), nontrivial=bool(routed))
         bad = None
         for cid in sc.cell_ids:
-            diff = paired.compare_records(a[cid], b[cid], shared, bitwise=True)
+            diff = paired.compare_records(a[cid], b[cid], gt.levels if mode == 'absent-flatten' else shared, bitwise=True)
             if diff:
                 bad = f'cell {cid}: {diff}'
                 # the marker lists the two runs ended up using (diagnostic only)
